@@ -64,6 +64,13 @@ CLAIMED = {
         "note": "NOT decided: the first sentence (equivalent delimiter sets / line statements / overlays render the same text) - a pure metamorphic property of the lexer with no schedule or history in it, not applicable to this technique. Trusted: isolated render of the same code as reference; GIL atomicity below source-line granularity; the lexer-cache capacity knob pokes jinja2.lexer._lexer_cache.capacity (skipped if absent).",
         "design": "DESIGN.md §4 C13, §3.3",
     },
+    "C30": {
+        "level": "exploration",
+        "technique": "deterministic simulation of the two nondeterminism sources the property names: fresh interpreters with seeded PYTHONHASHSEED values and seeded per-process compilation histories (orders, cache clears, unrelated compilations); digest comparison of generated source",
+        "text": "Per seeded corpus of generated template sets (biased to the code-generator sites that turn a set of names into emitted text), 3 (quick) or 6 (thorough) fresh interpreters are started with PYTHONHASHSEED values drawn from the seed; each compiles the corpus in a drawn order, clears caches, compiles unrelated templates, and compiles the corpus again in another order. All digests of Environment.compile(raw=True) for one (template, configuration) must agree; on a mismatch both sources are diffed into the replay file. Sampling of programs and hash seeds.",
+        "note": "Trusted: nothing but CPython; hash-seed dependence is only visible if one of the sampled seeds orders the relevant set differently (3-6 seeds per corpus, hundreds of corpora per run) and if the generator reaches the site (per-site coverage counters are in the evidence).",
+        "design": "DESIGN.md §4 C30",
+    },
 }
 
 PENDING_REASON = "check not built yet in this session (planned as a simulation check, DESIGN.md §4); not claimed until it exists"
